@@ -4,7 +4,10 @@
    delta = lastFSMUpdateTime - lastAppendedAtTime, IsZero = (time is the zero Time);
    times are nanoseconds counted from the zero Time, the uint64 indexes are naturals. *)
 From Coq Require Import List NArith ZArith Bool Lia ZifyBool ZifyN.
-From RQ Require Import Lib.GoLib Lib.GenTac Model.C16 Gen.StoreState.
+From RQ Require Import Lib.GoLib.
+From RQ Require Import Lib.GenTac.
+From RQ Require Import Model.C16.
+From RQ Require Import Gen.StoreState.
 Local Open Scope Z_scope.
 
 (* The Section variables of the generated file (the calls that are not translated) are instantiated
